@@ -4,6 +4,7 @@
   linearisation cone of `Props/C07Mirror.lean` (`instScalarReal`) are not mixed in one file.
 -/
 import Gama.Lemmas.C07MirrorSigma
+import Gama.Lemmas.C07MirrorGram
 namespace Gama.Props.C07MirrorSigma
 open Gama Gama.Ls Gama.Ls.Net Gama.Cov.YSign Matrix
 attribute [local instance 2000] scalarOfField
@@ -26,6 +27,40 @@ theorem C07_mirror_sigma {K : Type} [Field K] [LinearOrder K] [IsStrictOrderedRi
     ∀ s t : Fin np.m, Sigma np' (Fin.cast hm.symm s) (Fin.cast hm.symm t) =
       C07Sig.rowSig L (dimsN np) s.val * Sigma np s t * C07Sig.rowSig L (dimsN np) t.val :=
   ⟨C07Sig.dimsN_conj np np' L h h', fun s => C07Sig.rowSig_sq L _ s, C07Sig.Sigma_conj np np' L h h' hm hdim hwf⟩
+
+/-- **what the numeric half of `singular_coords` reads** (route to `DegenInv`, part 1): the Gram matrix of the
+    HOMOGENISED design matrix that `prepareProjectEquations()` leaves is the normal matrix `Aᵀ P A` of the assembled
+    system, `P` the inverse of the cofactor matrix — the sums `aa = Σ a²`, `ab = Σ a b`, `bb = Σ b²` over the columns
+    `index_x`, `index_y` of a point are its entries `(x,x)`, `(x,y)`, `(y,y)` -/
+theorem C07_hom_gram_is_normal_matrix {K : Type} [Field K] [LinearOrder K] [IsStrictOrderedRing K] [SqrtFn K]
+    (hsq : IsSqrt (SqrtFn.sq : K → K)) (np : NetProblem K) (hdim : (dimsN np).sum = np.m)
+    (h : Hom K) (hp : prepare np = .ok h)
+    (P : Matrix (Fin (toProblem np).m) (Fin (toProblem np).m) K) (hP : (toProblem np).C * P = 1) :
+    (Gama.LS.toMatrix (toProblem np).m (toProblem np).n h.Ad)ᵀ * Gama.LS.toMatrix (toProblem np).m (toProblem np).n h.Ad
+      = (Gama.LS.toMatrix (toProblem np).m (toProblem np).n (denseA np))ᵀ * P *
+          Gama.LS.toMatrix (toProblem np).m (toProblem np).n (denseA np) :=
+  C07Gram.hom_gram hsq np hdim h hp P hP
+
+/-- **… and what the mirror does to it** (part 2): for `A' = D_s A D_t`, `P' = D_s P D_s` (`s² = 1`; the system of the
+    mirrored description: `C07_mirror_of_pass`, `C07_mirror_sigma_of_project_equations`) the normal matrix is
+    `D_t (Aᵀ P A) D_t`: `aa`, `bb` unchanged, `ab ↦ t_x t_y · ab` — and `1 − |ab|/√(aa·bb)` reads `|ab|` only.
+    (Part 3, NOT done: the two foldl sums of `SingularCoords.colSums` as these matrix entries for the two inner calls,
+    at the carrier `instScalarReal`.) -/
+theorem C07_normal_matrix_mirrored {K : Type} [Field K] {m n : Type} [Fintype m] [Fintype n] [DecidableEq m]
+    [DecidableEq n] (A : Matrix m n K) (P : Matrix m m K) (s : m → K) (t : n → K) (hs : ∀ i, s i * s i = 1) (x y : n) :
+    ((diagonal s * A * diagonal t)ᵀ * (diagonal s * P * diagonal s) * (diagonal s * A * diagonal t)) x y
+      = t x * (Aᵀ * P * A) x y * t y := by
+  have hss : diagonal s * diagonal s = (1 : Matrix m m K) := by
+    rw [diagonal_mul_diagonal]; simp [hs]
+  have e : (diagonal s * A * diagonal t)ᵀ * (diagonal s * P * diagonal s) * (diagonal s * A * diagonal t)
+      = diagonal t * (Aᵀ * P * A) * diagonal t := by
+    rw [transpose_mul, transpose_mul, diagonal_transpose, diagonal_transpose]
+    calc diagonal t * (Aᵀ * diagonal s) * (diagonal s * P * diagonal s) * (diagonal s * A * diagonal t)
+        = diagonal t * (Aᵀ * ((diagonal s * diagonal s) * P * (diagonal s * diagonal s)) * A) * diagonal t := by
+          simp only [Matrix.mul_assoc]
+      _ = diagonal t * (Aᵀ * P * A) * diagonal t := by rw [hss, Matrix.one_mul, Matrix.mul_one]
+  rw [e, mul_diagonal, diagonal_mul]
+
 
 /-- non-vacuity (ℚ): one active cluster `(dx, dy)` with `cov(dx, dy) = 3` and the pattern `[false, true]`; the hypotheses
     about the cluster hold, the conjugated cluster carries `−3`, and the row signs are `+1, −1` -/
